@@ -83,10 +83,13 @@ def make_case(g, rules, docs, calls):
             lines.append(f"(S.rules[{ri}].condition.filter(docs[{di}]) if isinstance(docs[{di}], (list, dict)) and docs[{di}] else None)")
     lines.append("print(docs == before)")
     c.py = "\n".join(lines)
-    try:
-        objs = [rc.build_rule(x) for x in rules]
-    except TypeError:
+    built = enc.outcome(lambda: [rc.build_rule(x) for x in rules])
+    if built[0] != "ok":
+        if built[1] != "TypeError":
+            c.fail("construction", f"building the rules raised {built[1]}")
+            return c
         return None
+    objs = built[1]
     S = Schema(list(objs))
     s_before = schema_snapshot(S)
     d_before = [doc_snapshot(d) for d in docs]
@@ -123,7 +126,11 @@ def make_case(g, rules, docs, calls):
             s_before = schema_snapshot(S)
     # repeatable: each call equals the same call on freshly built objects and fresh documents
     for i, call in enumerate(calls):
-        fresh_S = Schema([rc.build_rule(x) for x in rules])
+        fb = enc.outcome(lambda: Schema([rc.build_rule(x) for x in rules]))
+        if fb[0] != "ok":
+            c.fail("construction", f"re-building the rules raised {fb[1]}")
+            break
+        fresh_S = fb[1]
         fresh_docs = [enc.dec_val(db[0]) if False else copy.deepcopy(enc.dec_val(desc["docs"][j])) for j, db in enumerate(d_before)]
         o = run(call, fresh_S, fresh_docs)
         if o != results[i]:
@@ -134,7 +141,11 @@ def make_case(g, rules, docs, calls):
         if call[0] == "validate" and results[i][0] == "ok":
             from props.c06 import make_cmp
             has_casts = any(x["cast"] for x in rules)
-            terms_ = [enc.enc_rule(o) for o in objs]
+            try:
+                terms_ = [enc.enc_rule(o) for o in objs]
+            except enc.Unencodable:
+                c.fail("schema_unchanged", "a rule of the schema can no longer be introspected (cyclic condition)")
+                break
             order = sorted(range(len(rules)), key=lambda k: len(rules[k]["parts"]))
             impl = ["ok", dict(results[i][1], order=order)]
             c.ask(["validate", terms_, enc.enc_val(docs[call[2]])], impl, "validate", make_cmp(False, True))
